@@ -46,7 +46,9 @@ def fold_op(proj, cell, weights="opaque", below_threshold=False, prepare=None):
     import time
 
     t0 = time.time()
-    hook = P.above_threshold_hook if not below_threshold else sweep.below_threshold_hook
+    # below_threshold="fold": the predicate is not summarised - its own body is folded, the comparison inside it being decided by the
+    # regime the rule installs through `prepare` (so that what the callers do with the value it returns is folded as written)
+    hook = P._provenance if below_threshold == "fold" else (P.above_threshold_hook if not below_threshold else sweep.below_threshold_hook)
     try:
         ev, runner, th, ob = R.fold_runner(proj, cell, on_call=hook)
         R.install_result_summaries(ev)
